@@ -17,8 +17,10 @@ var c23Prefixes = []string{"-", "00", "61", "ff", "ffff"}
 
 func c23History(r *rand.Rand) []string {
 	base := []string{"mem", "ldb", "pbl"}[r.Intn(3)]
-	if base != "mem" && r.Intn(40) == 0 {
-		base += "!" // fresh engine instance for this history only
+	if base != "mem" && r.Intn(10) == 0 {
+		base += "!" + strconv.Itoa(r.Intn(5)) // fresh engine, one of the constructor configurations
+	} else if base == "mem" && r.Intn(8) == 0 {
+		base = "mem!" // through memorydb.NewProducer with a shared namespace
 	}
 	header := []string{base}
 	depth := r.Intn(4)
@@ -52,7 +54,7 @@ func c23History(r *rand.Rand) []string {
 	}
 	return kvh.Gen(r, kvh.GenCfg{Header: header, Handles: handles, NOps: 10 + r.Intn(50),
 		BigValues: r.Intn(15) == 0, SweepPairs: 8, KeyHints: hints,
-		Reopen: base != "mem" && r.Intn(3) == 0, ECompact: r.Intn(3) == 0, Live: r.Intn(8) == 0})
+		Reopen: base[:3] != "mem" && r.Intn(3) == 0, Stat: r.Intn(3) == 0, ECompact: r.Intn(3) == 0, Live: r.Intn(8) == 0})
 }
 
 func c23Gen(r *rand.Rand, n int, tier string, emit func(input ...string)) {
